@@ -6,6 +6,7 @@ import (
 	"errors"
 	"io"
 	"net"
+	"net/netip"
 	"sync"
 	"syscall"
 	"time"
@@ -17,6 +18,16 @@ type fakeAddr string
 func (a fakeAddr) Network() string { return "tcp" }
 func (a fakeAddr) String() string  { return string(a) }
 
+// mkAddr turns "host:port" into a *net.TCPAddr, as a real socket would report
+// (an IPv4-mapped IPv6 address keeps its 16-byte form, like a connection
+// accepted on a dual-stack listener); anything unparsable stays a plain string.
+func mkAddr(hostport string) net.Addr {
+	if ap, err := netip.ParseAddrPort(hostport); err == nil {
+		return net.TCPAddrFromAddrPort(ap)
+	}
+	return fakeAddr(hostport)
+}
+
 // fakeConn is the local (corebgp-side) end of an in-memory connection. The
 // remote side is the script: it appends segments to the receive queue, and
 // every Write/Close corebgp performs is logged by the goroutine performing it.
@@ -26,8 +37,8 @@ func (a fakeAddr) String() string  { return string(a) }
 // segmentation corebgp observes.
 type fakeConn struct {
 	name   string
-	local  fakeAddr
-	remote fakeAddr
+	local  net.Addr
+	remote net.Addr
 	tr     *tracer
 
 	mu       sync.Mutex
@@ -43,7 +54,7 @@ type fakeConn struct {
 }
 
 func newFakeConn(name string, local, remote string, tr *tracer) *fakeConn {
-	return &fakeConn{name: name, local: fakeAddr(local), remote: fakeAddr(remote),
+	return &fakeConn{name: name, local: mkAddr(local), remote: mkAddr(remote),
 		tr: tr, wake: make(chan struct{})}
 }
 
@@ -283,9 +294,9 @@ func (l *fakeListener) Close() error {
 
 func (l *fakeListener) Addr() net.Addr {
 	if l.addr == "" {
-		return fakeAddr("0.0.0.0:179")
+		return mkAddr("0.0.0.0:179")
 	}
-	return l.addr
+	return mkAddr(string(l.addr))
 }
 
 var errScriptedListener = errors.New("scripted listener failure")
